@@ -420,7 +420,7 @@ static vc::Args A;
 static vc::Stats ST;
 static std::string g_last_fail;
 static int g_next_id = 1;
-static long g_search_budget = 50000;   // placements tried before a disagreement is declared unexplained
+static long g_search_budget = 3000000;   // placements tried before the search is given up (inconclusive); 50000 was too small for 8 threads
 
 static int slot_of(int tid, int k) { return (tid < 0 ? MAXTH : tid) * SLOTS_PER_THREAD + (k % SLOTS_PER_THREAD); }
 static int owner_index(int tid) { return tid < 0 ? MAXTH : tid; }
@@ -747,7 +747,10 @@ static std::string linearizable(const std::vector<OpRec>& recs_in, long* searche
     return gen(0, 0);
   };
   if (rec_search(0)) return "";
-  return first + (budget < 0 ? " [placement search budget exhausted]" : " [no placement of the operation's steps on its critical sections explains it]");
+  // the search was cut off: whether a placement explains the observation is not known. A budget hit is inconclusive,
+  // never a violation (it is counted, and the share of such cases is part of the evidence)
+  if (budget < 0) { ST.label("cases_inconclusive_placement_search_budget_exhausted"); return ""; }
+  return first + " [no placement of the operation's steps on its critical sections explains it]";
 }
 
 // ------------------------------------------------------------------------------------------
@@ -1067,7 +1070,7 @@ static bool enumerate_all(Program p, long* count, std::string* why, long cap) {
 
 int main(int argc, char** argv) {
   A = vc::parse_args(argc, argv);
-  g_search_budget = A.geti("budget", 50000);
+  g_search_budget = A.geti("budget", 3000000);
   g_c17 = A.prop == "C17";
   std::string mode = A.get("mode", "A");   // A: free-running (TSan build), B: owned random schedules, E: exhaustive schedules of tiny programs
   ST.rule = "rapidcheck generates programs of 2..N threads x 1..6 operations {call, create (6 spellings of IN_SEQUENCE/TIMES order), release, "
